@@ -154,6 +154,73 @@ def run_wntr(wn, hw_approx='default', tol=None, convergence_error=False, keep=Fa
     return out
 
 
+def concat_runs(runs):
+    """rows of consecutive parts of one simulation as one SimRun (ok = all parts ok)"""
+    out = SimRun()
+    runs = list(runs)
+    out.sim = runs[-1].sim
+    out.exception = next((r.exception for r in runs if r.exception is not None), None)
+    out.warnings = [w for r in runs for w in r.warnings]
+    good = [r for r in runs if r.exception is None]
+    out.ok = out.exception is None and all(r.ok for r in good)
+    out.error_code = None if out.ok else 0
+    out.results = None
+    rows = [r for r in good if len(r.times)]
+    if not rows:
+        out.times = np.array([])
+        out.node = good[0].node if good else {}
+        out.link = good[0].link if good else {}
+        return out
+    out.times = np.concatenate([r.times for r in rows])
+    out.node = {k: {n: np.concatenate([r.node[k][n] for r in rows]) for n in rows[0].node[k]} for k in rows[0].node}
+    out.link = {k: {n: np.concatenate([r.link[k][n] for r in rows]) for n in rows[0].link[k]} for k in rows[0].link}
+    return out
+
+
+def run_wntr_history(wn, hist=None, **kw):
+    """Runs wn through a small history and returns the SimRun whose rows are to be judged.
+
+    hist: None                    one run
+          ['rerun', 'new'|'same'] run, reset_initial_values(), run again (new / same simulator object): the second run
+          ['pause', t]            run to t (on the hydraulic grid), then continue to the duration with a new simulator
+                                  object: the rows of both parts
+    The row-wise oracles (balances, head-flow laws, timelines, tank integration) apply to every such history unchanged.
+    If the first run of a history raises or does not converge it is returned as it is (out.history_done = False)."""
+    if not hist:
+        r = run_wntr(wn, **kw)
+        return r
+    if hist[0] == 'rerun':
+        r1 = run_wntr(wn, **kw)
+        if r1.exception is not None or not r1.ok:
+            return r1
+        wn.reset_initial_values()
+        return run_wntr(wn, sim=r1.sim if hist[1] == 'same' else None, **kw)
+    if hist[0] == 'pause':
+        dur = wn.options.time.duration
+        t = int(hist[1])
+        if not 0 <= t < dur:
+            return run_wntr(wn, **kw)
+        wn.options.time.duration = t
+        r1 = run_wntr(wn, **kw)
+        wn.options.time.duration = dur
+        if r1.exception is not None or not r1.ok:
+            return r1
+        r2 = run_wntr(wn, **kw)
+        return concat_runs([r1, r2])
+    raise ValueError(hist)
+
+
+def draw_history(draw, st, opts, share=4):
+    """generator side of run_wntr_history: None most of the time, else a rerun or a pause on the hydraulic grid"""
+    z = draw(st.integers(0, 2 * share - 1))
+    nsteps = opts['duration'] // opts['hyd']
+    if z == 0:
+        return ['rerun', draw(st.sampled_from(['new', 'same']))]
+    if z == 1 and nsteps >= 2:
+        return ['pause', opts['hyd'] * draw(st.integers(0, nsteps - 1))]
+    return None
+
+
 # ----------------------------------------------------------------- independent evaluators
 def pattern_mult(spec, pname, t):
     """multiplier of pattern `pname` at absolute pattern time t (pattern_start already added)"""
